@@ -112,6 +112,13 @@ def directed() -> List[Dict[str, Any]]:
                     D.append({"budget": 3, "nv": nv, "transpile": tr, "events": [
                         {"a": "new", "h": 1}, {"a": "seq", "role": role, "n": n, "form": form, "with": 1}, {"a": "flush"},
                         {"a": "gate", "h": 1}, {"a": "measD", "h": 1}, {"a": "flush"}]})
+    # a context whose body is refused part-way (the application catches the error and carries on); a qubit created just
+    # before, not yet flushed
+    for role in ("create", "recv"):
+        for n in (1, 2):
+            D.append({"budget": 3, "nv": False, "transpile": False, "events": [
+                {"a": "new", "h": 1}, {"a": "seq", "role": role, "n": n, "form": "context", "rejected": True}, {"a": "flush"},
+                {"a": "gate", "h": 1}, {"a": "new", "h": 2}, {"a": "measD", "h": 1}, {"a": "flush"}, {"a": "measD", "h": 2}, {"a": "flush"}]})
     D.append({"budget": 4, "nv": False, "transpile": False, "events": [
         {"a": "new", "h": 1}, {"a": "keep", "role": "create", "hs": [2, 3], "fid": 80, "fail": [0]}, {"a": "flush"},
         {"a": "gate2", "h": 1, "h2": 3}, {"a": "free", "h": 2}, {"a": "new", "h": 4}, {"a": "flush"}]})
@@ -199,6 +206,19 @@ def _run(item):
                         if by is not None:
                             by.Z()
                     (sock.create_keep if e["role"] == "create" else sock.recv_keep)(n, post_routine=post, sequential=True)
+                elif e.get("rejected"):
+                    # the body makes an SDK call that is refused (the pair's qubit is measured twice); the application
+                    # catches the error and carries on: the context still closes (pair generated, qubit measured)
+                    rejected_ok = False
+                    try:
+                        with (sock.create_context(n) if e["role"] == "create" else sock.recv_context(n)) as (q, pair):
+                            q.H()
+                            q.measure()
+                            q.measure()
+                    except Exception:          # (QubitNotActiveError, or what reading the id of a future qubit raises)
+                        rejected_ok = True
+                    if not rejected_ok:
+                        raise RuntimeError("rig: the second measurement of the pair's qubit was not refused")
                 else:
                     with (sock.create_context(n) if e["role"] == "create" else sock.recv_context(n)) as (q, pair):
                         if by is not None:
